@@ -159,6 +159,42 @@ pub fn run(tier: Tier) -> i32 {
         }
     }
     run_layer(&mut rep, "operator-tables", &chains, &[Layout::Space, Layout::Tight, Layout::Lines], format!("all {}x{} infix pairs, all triples over one representative per precedence level, prefix/postfix operands on either side of every operator; expected grouping by reference precedence climbing", all_ops.len(), all_ops.len()), &mut distinct);
+    // G3: string literals - every sequence of <= 3 units over {a, \\, \", \n, é} in expression,
+    // let, constant, pattern and argument position, followed by an item that contains a string
+    // of its own (so that a literal running past its closing quote is visible)
+    {
+        let units = ["a", "\\\\", "\\\"", "\\n", "é"];
+        let mut lits: Vec<String> = vec![String::new()];
+        let mut frontier = vec![String::new()];
+        for _ in 0..3 {
+            let mut next = vec![];
+            for f in &frontier {
+                for u in units {
+                    next.push(format!("{f}{u}"));
+                }
+            }
+            lits.extend(next.iter().cloned());
+            frontier = next;
+        }
+        let after = Item::Fn { public: false, external: false, target: None, name: "after".into(), params: vec![], ret: None, body: Some(vec![Stmt::Expr(Expr::Str("\"z\"".into()))]) };
+        let mut mods = vec![];
+        for l in &lits {
+            let lit = format!("\"{l}\"");
+            let e = Expr::Str(lit.clone());
+            let f = |body: Vec<Stmt>| Item::Fn { public: false, external: false, target: None, name: "h".into(), params: vec![Param { label: None, name: "x".into(), ty: None }], ret: None, body: Some(body) };
+            let hosts = vec![
+                f(vec![Stmt::Expr(e.clone())]),
+                f(vec![Stmt::Let { assert: false, pat: Pattern::Var("r".into()), ann: None, value: e.clone() }, Stmt::Expr(var("r"))]),
+                Item::Const { public: false, name: "k".into(), ann: None, value: e.clone() },
+                f(vec![Stmt::Expr(Expr::Case(vec![var("x")], vec![Clause { alts: vec![vec![Pattern::Str(lit.clone())]], guard: None, body: Expr::Int("1".into()) }, Clause { alts: vec![vec![Pattern::Discard("_".into())]], guard: None, body: Expr::Int("2".into()) }]))]),
+                f(vec![Stmt::Expr(Expr::Call(Box::new(var("x")), vec![Arg { label: None, value: ArgValue::Expr(e.clone()) }, Arg { label: None, value: ArgValue::Expr(Expr::Str("\"y\"".into())) }]))]),
+            ];
+            for h in hosts {
+                mods.push(Module { items: vec![neighbour("before"), h, after.clone()] });
+            }
+        }
+        run_layer(&mut rep, "string-literals", &mods, &[Layout::Space, Layout::Tight], format!("{} string literals (every sequence of <= 3 units over {{a, escaped backslash, escaped quote, \\n, é}}) x 5 positions (statement, let value, constant, pattern, call argument next to another string), followed by an item with a string of its own", lits.len()), &mut distinct);
+    }
     rep.distinct_nontrivial = distinct.len() as u64;
     rep.distinct_outcomes = 1 + rep.violations.iter().map(|v| v.class.clone()).collect::<BTreeSet<_>>().len() as u64;
     rep.rule = "programs generated from the reference grammar; distinct = distinct ASTs (S-expression hash); every one is a well-formed Gleam program by construction".into();
